@@ -206,6 +206,68 @@ def outside_case(item):
     return res
 
 
+def latedir_case(item):
+    """The target's directory does not exist at the first build (an ancestor rule creates it with mkdir -p); afterwards a
+    higher-priority candidate is added inside the new directories: the next redo-ifchange must switch to it."""
+    name, depth, where, seed = item
+    rnd = random.Random(repr(item))
+    pj = scen.Project({}, 'c13l')
+    top = os.path.realpath(pj.top)
+    anoms = []
+    obs = dict(commands=0)
+    try:
+        reldir = '/'.join(['out', 'sub', 'deep'][:depth])
+        abs_t = posixpath.join(top, reldir, name)
+        cands = ref_candidates(abs_t)
+        inside = [c for c in cands if c[0].startswith(top + '/')]
+        # first rule: a default*.do in the project top (the only directory that exists)
+        at_top = [c for c in inside if posixpath.dirname(c[0]) == top and posixpath.basename(c[0]).startswith('default')]
+        first = rnd.choice(at_top)
+        mk = 'mkdir -p "$(dirname "$3")"\n'
+        common.write_file(first[0], mk + SCRIPT % 'first')
+        spelled = posixpath.join(reldir, name)
+        r, _ = pj.run(['redo-ifchange', spelled], cwd=top, verif_log=False)
+        obs['commands'] += 1
+        body = common.read_file(abs_t)
+        if r.rc != 0 or body is None or b'ID=first' not in body:
+            return dict(verdict='inconclusive', why='first build through the top-level rule failed: %s' % r.err[-200:], sample=dict(item=list(item)))
+        # now a candidate with higher priority, somewhere inside the directories that did not exist before
+        higher = [c for c in inside if inside.index(c) < inside.index(first) and posixpath.dirname(c[0]) != top]
+        if where == 'specific':
+            higher = [c for c in higher if c[0] == abs_t + '.do']
+        elif where == 'nearest':
+            higher = [c for c in higher if posixpath.dirname(c[0]) == posixpath.dirname(abs_t) and c[0] != abs_t + '.do']
+        else:
+            higher = [c for c in higher if posixpath.dirname(c[0]) != posixpath.dirname(abs_t)] or higher
+        if not higher:
+            return dict(verdict='held', nontrivial=False, shape='none', sample=dict(item=list(item)), obs=obs)
+        new = rnd.choice(higher)
+        common.write_file(new[0], SCRIPT % 'second')
+        r1, _ = pj.run(['redo-whichdo', spelled], cwd=top, verif_log=False)
+        r2, _ = pj.run(['redo-ifchange', spelled], cwd=top, verif_log=False)
+        obs['commands'] += 2
+        body = common.read_file(abs_t) or b''
+        kv = dict(l.split('=', 1) for l in body.decode('utf-8', 'replace').split('\n') if '=' in l)
+        chosen = next((c for c in cands if os.path.exists(c[0])), None)
+        got = [posixpath.normpath(posixpath.join(top, l)) for l in r1.out.split('\n') if l]
+        if not got or got[-1] != chosen[0]:
+            anoms.append(dict(key='whichdo-order:late-directory', what='redo-whichdo ends at %r, first existing candidate is %r' % (got[-1:] and got[-1], chosen[0])))
+        if r2.rc != 0:
+            anoms.append(dict(key='build-failed:late-directory', what='exit %s: %s' % (r2.rc, r2.err[-200:])))
+        elif kv.get('ID') != 'second' or kv.get('A1') != chosen[2] or kv.get('PWD') != chosen[1]:
+            anoms.append(dict(key='script-choice:after-adding-higher-priority:late-directory',
+                              what='%s was built by the top-level rule while its directory did not exist; %s was added afterwards, but the target still says ID=%s A1=%s PWD=%s'
+                                   % (spelled, posixpath.relpath(new[0], top), kv.get('ID'), kv.get('A1'), kv.get('PWD'))))
+    finally:
+        pj.close()
+    res = dict(verdict='violated' if anoms else 'held', nontrivial=True, shape=common.shash(list(item)),
+               sample=dict(kind='late-directory', name=name, depth=depth, where=where), obs=obs, sets=dict(chosen_kinds=['late-directory:' + where]))
+    if anoms:
+        res['violations'] = anoms
+        res['replay'] = dict(kind='c13late', item=list(item))
+    return res
+
+
 def direct_case(item):
     """possible_do_files called directly vs the reference, for enumerated names."""
     alphabet, maxlen, depth = item
@@ -259,6 +321,8 @@ def dispatch(item):
         return direct_case(item[1:])
     if item[0] == 'outside':
         return outside_case(item[1:])
+    if item[0] == 'latedir':
+        return latedir_case(item[1:])
     return cmd_case(item[1:])
 
 
@@ -267,7 +331,7 @@ RULE = ('command level: target paths at depth 0-3 (directory names with a space 
         'spelled in 4-8 ways (./, x/../, //, absolute, from sub-directories); redo-whichdo output and the ID/$1/$2/$3/cwd echoed by the '
         'executed script are compared with an independent reference written from the property text; then one mutation (add a higher-priority '
         'candidate / remove the chosen one / repeat) and the comparison again; fresh projects whose first command runs in proj/sub and asks for '
-        '../other/<name> (rule 0-2 levels above the target, a decoy default.do in proj/sub). Direct level (clean and .././/-spelled paths): possible_do_files() for every basename over '
+        '../other/<name> (rule 0-2 levels above the target, a decoy default.do in proj/sub); targets whose directory is created by the rule itself (mkdir -p) and gets a higher-priority rule afterwards. Direct level (clean and .././/-spelled paths): possible_do_files() for every basename over '
         'small alphabets up to a length bound x directory depth vs the same reference. Every case is non-trivial; distinct = parameter tuple.')
 ASSUME = ['ancestors of the scratch root contain no default*.do (checked at start-up)', 'targets whose spelling resolves to an existing directory are not generated']
 
@@ -289,6 +353,10 @@ def main(tier):
                 if quick and (len(n) + rule_at) % 2:
                     continue
                 items.append(('outside', n, rule_at, decoy, rnd.randrange(1000)))
+    for n in [x for x in NAMES if '.' in x.strip('.')][:(4 if quick else 99)]:
+        for depth in (1, 2, 3):
+            for where in ('specific', 'nearest', 'between'):
+                items.append(('latedir', n, depth, where, rnd.randrange(1000)))
     rnd.shuffle(items)
     items = [('direct', 'a.x', 5 if quick else 7, 2 if quick else 3), ('direct', 'ab. ', 4 if quick else 5, 2), ('direct', '.é-', 4 if quick else 6, 1)] + items
     deadline = time.time() + (75 if quick else 700)
@@ -304,7 +372,7 @@ def replay(path):
     d = json.load(open(path))
     common.ensure_built()
     it = d['replay']['item']
-    r = direct_case(tuple(it)) if d['replay']['kind'] == 'direct' else (outside_case(tuple(it)) if d['replay']['kind'] == 'c13out' else cmd_case(tuple(it)))
+    r = direct_case(tuple(it)) if d['replay']['kind'] == 'direct' else (outside_case(tuple(it)) if d['replay']['kind'] == 'c13out' else (latedir_case(tuple(it)) if d['replay']['kind'] == 'c13late' else cmd_case(tuple(it))))
     print(r.get('verdict'), r.get('violations'))
     common.cleanup_scratch()
     if r.get('verdict') == 'violated':
